@@ -231,7 +231,7 @@ def main(tier, seed):
     try:
         translate()
         run.obligation("translate:fit_mvstud structure + dof fallback", True)
-    except TranslateError as e:
+    except Exception as e:  # fail closed: anything the translator cannot digest
         run.obligation("translate:fit_mvstud structure + dof fallback", False, str(e))
     run.prove("Props/C19.v", link_rels=["Link/Student.v"])
     try:
